@@ -946,6 +946,23 @@ package mcp
 // that context carries the id of the request being handled, which is what the streamable server routes by. An
 // SDK-internal call site that swaps the context (for a fresh background one, say) moves the message from the
 // request's exchange to the standalone stream.
+// Server-side fulfilment of a handler's input requests for clients older than 2026-07-28 (since seed C10-10): the
+// elicitation / sampling / roots requests are issued while the original request is being handled, so they travel on
+// that request's stream - the group that runs them is derived from the handler's context (which carries the request
+// id), and each of them is issued with the context it was given.
+//@ func fulfillServerInputRequests [C10]
+//@   track errgroup.WithContext as group
+//@   modifies *
+//@   ensures @one-group-per-fulfilment calls(group) == 1
+//@   assert at call errgroup.WithContext: @the-round-trips-run-under-the-handlers-context $0 == old(ctx)
+//@ func fulfillServerInputRequests$1 [C10]
+//@   modifies *
+//@   assert at call fulfillServerInputRequest: @each-round-trip-gets-the-groups-context $0 == ctx && $1 == ss
+//@ func fulfillServerInputRequest [C10]
+//@   modifies *
+//@   assert at call Elicit: @the-request-travels-with-the-context-given $1 == ctx && $0 == ss
+//@   assert at call CreateMessageWithTools: @the-request-travels-with-the-context-given $1 == ctx && $0 == ss
+//@   assert at call ListRoots: @the-request-travels-with-the-context-given $1 == ctx && $0 == ss
 //@ func (*LoggingHandler).handle [C10]
 //@   track Log as send
 //@   requires h != nil
